@@ -172,7 +172,7 @@ example : NWorldInv nvEnv nvNW0 := by
       split
       · decide +kernel
       · decide
-    · intro a k t m hne hdec hm
+    · intro a k t m _ hne hdec hm
       rw [hread] at hne hdec
       split at hne
       · rename_i h
@@ -180,7 +180,7 @@ example : NWorldInv nvEnv nvNW0 := by
         cases hdec; cases hm; decide
       · exact absurd rfl hne
   · exact ⟨by simp [Accts.Nodup], fun _ _ _ _ => Or.inl rfl, fun _ _ => (by show ([] : Bytes).length < two63; decide),
-      fun _ _ _ _ h => absurd rfl h⟩
+      fun _ _ _ _ _ h => absurd rfl h⟩
 
 /-- FULL (history level, MultiESDTNFTTransfer): in a world of any number of shards with messages in flight, along ANY
     sequence of multi-transfer transactions (any number of items; fungible, SFT and NFT items mixed; the same entry listed
@@ -243,7 +243,7 @@ example : MWorldInv nvEnv nvMW0 := by
       · split
         · decide +kernel
         · decide
-    · intro a k t m hne hdec hm
+    · intro a k t m _ hne hdec hm
       rw [hread] at hne hdec
       split at hne
       · rename_i h
@@ -257,6 +257,6 @@ example : MWorldInv nvEnv nvMW0 := by
           cases hdec; cases hm; decide
         · exact absurd rfl hne
   · exact ⟨by simp [Accts.Nodup], fun _ _ _ _ => Or.inl rfl, fun _ _ => (by show ([] : Bytes).length < two63; decide),
-      fun _ _ _ _ h => absurd rfl h⟩
+      fun _ _ _ _ _ h => absurd rfl h⟩
 
 end C01
